@@ -42,7 +42,11 @@ fn object_line(kind: usize, slot: usize, t: i64, d: i64) -> String {
         6 => format!("{x},192,{t_text},128,0,{}:0:0:0:0:", t + 400),
         7 => format!("{x},{y},{t_text},1,0,0:0:0:0:f.wav"),
         // custom index given, volume left to the sample point
-        _ => format!("{x},{y},{t_text},1,4,0:0:2:0:"),
+        8 => format!("{x},{y},{t_text},1,4,0:0:2:0:"),
+        // the last control point twice and a requested length beyond the path: the curve keeps its own length (70)
+        9 => format!("{x},{y},{t_text},2,0,L|{}:{y}|{}:{y},2,140", x + 70, x + 70),
+        // a slider without any further control point: its curve has length 0 whatever length is requested
+        _ => format!("{x},{y},{t_text},2,0,L,1,50"),
     }
 }
 
@@ -444,7 +448,7 @@ fn check_spec(spec: &Spec, shifts: &[i64], acc: &mut Acc) {
             Err(e) => acc.violation(Violation::new("decode-failed", e, json!({"kind": "spec", "spec": spec.json(), "shift": d}))),
         }
     }
-    let sliders = spec.objects.iter().filter(|o| o.0 == 3 || o.0 == 4).count();
+    let sliders = spec.objects.iter().filter(|o| [3, 4, 9, 10].contains(&o.0)).count();
     if sliders > 0 || spec.breaks > 0 {
         acc.nontrivial(&format!("{:?}", base.hit_objects));
     }
@@ -462,7 +466,7 @@ pub fn run(tier: Tier) -> i32 {
     let run = Run::new("C15", tier, "model_checking");
     let mut acc = Acc::new();
     run_witnesses("C15", &mut acc, &replay);
-    let obj_alpha: Vec<(usize, i64)> = (0..9).flat_map(|k| TIMES.iter().map(move |t| (k, *t))).collect();
+    let obj_alpha: Vec<(usize, i64)> = (0..11).flat_map(|k| TIMES.iter().map(move |t| (k, *t))).collect();
     let mut bounds = Vec::new();
     let plans: Vec<(usize, Vec<Vec<usize>>, Vec<u8>, Vec<usize>)> = if tier.thorough() {
         vec![
@@ -505,7 +509,7 @@ pub fn run(tier: Tier) -> i32 {
         }
     }
     let summary = Summary {
-        rule: "every map assembled from n object lines in ANY file order (8 object kinds x 4 times, each with a distinguishing \
+        rule: "every map assembled from n object lines in ANY file order (11 object kinds x 5 times, each with a distinguishing \
                position) x 8 break lists (incl. break end =, < and > an object start) x sets of <= 2 timing lines and one of 3 with sample settings A->B->A (sample points at \
                +4/+5/+6 ms, SV 0.1/0.5/2/10, two timing points) x modes x slider multipliers {0.4,1.4,3.6}: decoded objects must be \
                the stable sort of the raw objects, first combo-capable object after each break flagged, slider velocity and \
